@@ -573,18 +573,33 @@ def run_replay(pid, path):
 
 
 def setup():
+    """Clean full build.  `make -k` so that an unfinished file of a property that is not yet claimed in
+    MANIFEST.json cannot stop the build of the claimed ones; fails when a target of a claimed property
+    (Props/Cxx.vo, Corr/Cxx.vo) is missing afterwards or a forbidden construct is present anywhere."""
     lock = Lock()
     lock.ex()
     regenerate_tables()
     ensure_makefile()
     subprocess.run(["make", "clean"], cwd=COQ, capture_output=True) if os.path.exists(os.path.join(COQ, "Makefile")) else None
-    rc, log, cmd = make([])
+    ensure_makefile()
+    cmd = ["timeout", "3000", "make", "-k", "-j16"]
+    p = subprocess.run(cmd, cwd=COQ, capture_output=True, text=True)
+    log = p.stdout + p.stderr
     print(log[-3000:])
+    claimed = [c["property_id"] for c in json.load(open(os.path.join(ROOT, "MANIFEST.json")))["checks"]]
+    missing = [t for pid in claimed for t in ("Props/%s.vo" % pid, "Corr/%s.vo" % pid)
+               if not os.path.exists(os.path.join(COQ, t))]
+    if p.returncode != 0:
+        print("make -k returned %d (files of unclaimed properties may be unfinished)" % p.returncode)
+    if missing:
+        print("setup FAILED: not built:", missing)
+        return 1
     bad = scan_forbidden(all_v_files())
     if bad:
         print("forbidden constructs:", bad)
         return 1
-    return rc
+    print("setup ok: built targets of", claimed)
+    return 0
 
 
 def main(argv=None):
